@@ -230,9 +230,12 @@ where
     node: Node<'tree, D>,
     env: &mut Cow<MetaVarEnv<'tree, D>>,
   ) -> Option<Node<'tree, D>> {
+    // the negated matcher must not write to the caller's environment:
+    // whatever it binds belongs to an alternative that is rejected
+    let mut scratch = Cow::Borrowed(env.as_ref());
     self
       .not
-      .match_node_with_env(node.clone(), env)
+      .match_node_with_env(node.clone(), &mut scratch)
       .xor(Some(node))
   }
 }
